@@ -19,7 +19,7 @@ RULE = ("seeded circuits (several nodes per type, hierarchy 0-2, edges) x 1-3 wh
         "linspace(0, T, N), and scipy runs are compared with a reference solution of the same interpolated problem; "
         "non-trivial = input reaches >= 1 state derivative (always) ; distinct = distinct (spec, input plan) hash")
 DECIDING = ['euler_rows_compared', 'adaptive_probe_points', 'adaptive_runs', 'inputs_1d', 'inputs_col1', 'inputs_multicol',
-            'broadcast_inputs', 'converging_inputs', 'sequence_runs', 'wide_targets']
+            'broadcast_inputs', 'converging_inputs', 'sequence_runs', 'wide_targets', 'adaptive_runs_resampled']
 ASSUMPTIONS = ['input samples are white noise, so a shift by one sample or a column permutation is an O(1) error',
                'adaptive: samples are placed uniformly on [0, T] including both end points (as the property states)']
 CASE_TIMEOUT = 240
@@ -219,6 +219,11 @@ def run_case(case, ctx):
                 mech['adaptive_probe_points'] = mech.get('adaptive_probe_points', 0) + 1
         else:
             from scipy.integrate import solve_ivp
+            # the number of samples need not be simulation_time / step_size: N samples are spread over [0, T]
+            fac = random.Random(case['cseed'] + 9).choice([1.0, 1.0, 0.5, 2.0, 3.0])
+            T = T * fac
+            if fac != 1.0:
+                mech['adaptive_runs_resampled'] = 1
             try:
                 df = observe.run_model(spec, T=T, dt=dt, solver='scipy', outputs=outputs, vectorize=vec, inputs=inputs,
                                        method='RK45', rtol=1e-9, atol=1e-11, max_step=T / (N - 1) / 2)
